@@ -83,14 +83,12 @@ theorem boks_emitResults : ∀ (f : Nat) (s : Sess), BOKS s.m (Sess.emitResults 
   | f + 1, s => by
     simp only [Sess.emitResults]
     split
-    · have k1 := SB.ofBnd (popData_bnd s.m)
-      split
-      · rename_i v m1 h
-        rw [h] at k1
-        exact boks_mono (k1 : SB s.m (({ s with m := m1 } : Sess).emit (Mach.loadValueOp v)).m)
-          (boks_emitResults f (({ s with m := m1 } : Sess).emit (Mach.loadValueOp v)))
-      · rename_i e m1 h; rw [h] at k1; exact k1
-      · rename_i e m1 h; rw [h] at k1; exact k1
+    · split
+      · rename_i v rest hd
+        have k1 : SB s.m (({ s with m := { s.m with ds := rest } } : Sess).emit (Mach.loadValueOp v)).m :=
+          SB.same (SB.refl _) rfl rfl (by show rest.length ≤ s.m.ds.length; rw [hd]; simp) (Nat.le_refl _)
+        exact boks_mono k1 (boks_emitResults f _)
+      · exact SB.refl _
     · exact SB.refl _
 
 theorem boks_contextClose (fuel : Nat) (s : Sess) : BOKS s.m (s.contextClose fuel) := by
@@ -244,9 +242,10 @@ theorem buildSource_bound (fuel : Nat) (mode : Mode) (toks : List Tok) (s : Sess
     intro h1
     have h1' : SB s.m s2.m := e0.trans h1
     simp only
-    have h2 := boks_contextClose fuel { s2 with constUndo := s2.constUndo.drop (s2.constUndo.length - s.constUndo.length) }
+    have h2 := boks_contextClose fuel { s2 with constUndo := s2.constUndo.drop (s2.constUndo.length - s.constUndo.length), m := forgetBuildLog s.m s2.m }
+    have h1' : SB s.m (forgetBuildLog s.m s2.m) := SB.same h1' rfl rfl (Nat.le_refl _) (Nat.le_refl _)
     revert h2
-    cases Sess.contextClose fuel { s2 with constUndo := s2.constUndo.drop (s2.constUndo.length - s.constUndo.length) } with
+    cases Sess.contextClose fuel { s2 with constUndo := s2.constUndo.drop (s2.constUndo.length - s.constUndo.length), m := forgetBuildLog s.m s2.m } with
     | ok s3 => intro h2; exact h1'.trans h2
     | err e s3 => intro h2; exact h1'.trans h2
     | panic p s3 => intro h2; exact h1'.trans h2
